@@ -33,6 +33,29 @@ class K:
             return self, n
         return g
 ''',
+    "shared_consts": '''
+T = (1, 2, 3)
+def f(x):
+    return x in {"alpha", "beta", "gamma"}, (1, 2, 3), 300000, "gamma", (10, 20, 30, "alpha")
+def g(x):
+    return x in {"alpha", "beta", "gamma"}, (1, 2, 3), 300000, "alpha", (10, 20, 30, "alpha"), 2.5, 2.5
+def h(x):
+    return (1, 2, 3), x in {"alpha", "beta", "gamma"}, 123456789012345678901234567890, 123456789012345678901234567890
+''',
+    "shared_sets": '''
+def classify(word, extra):
+    if word in {"alpha", "beta", "gamma"}:
+        return "alpha"
+    if extra in {10, 2000, 300000}:
+        return 2000
+    return ("beta", "gamma", 300000, word)
+
+
+def other(y, z):
+    if z in {10, 2000, 300000}:
+        return 10
+    return y in {"alpha", "beta", "gamma"} or z == "gamma"
+''',
     "loops_jumps": '''
 def f(n):
     t = 0
